@@ -17,8 +17,9 @@ from .. import extract
 @extract.item("E11ParentLink")
 def parent_link(repo):
     src = extract.strip_comments(extract.read(repo, "analyzers_v2/ast_annotator.rs"))
-    body = extract.fn_body(src, "handle_class")
-    m = re.search(r"if\s+([^{]*?)\{\s*self\.diag_collector\.lock\(\)\.unwrap\(\)\.add_diagnostic\(\s*AnalyzerDiagnostic::new\(\"Parent class cannot be itself\"", body)
+    # a diagnostic may be reported through a private helper: one level of helpers is inlined first
+    body = extract.inline_helpers(src, extract.fn_body(src, "handle_class"), skip=("parent_chain_reaches_root",))
+    m = re.search(r"if\s+([^{]*?)\{\s*(?:\{\s*)?self\.diag_collector\.lock\(\)\.unwrap\(\)\.add_diagnostic\(\s*AnalyzerDiagnostic::new\(\"Parent class cannot be itself\"", body)
     if not m:
         raise ValueError("handle_class: self-parent guard not found")
     cond = re.sub(r"\s+", "", m.group(1))
